@@ -1,7 +1,7 @@
 (* C01 - messages reach exactly the addressed audience, once, truly attributed.
    Statements only; proofs in IRCP.MsgP. *)
 From IRC Require Import Str Wild Parse Reply State Handlers Step.
-From IRCP Require Import MsgP Reach IdentP.
+From IRCP Require Import MsgP Reach IdentP InvDefs MsgGlobal.
 From stdpp Require Import gmap.
 
 Section C01.
@@ -82,7 +82,23 @@ Theorem C01_true_attribution : forall cfg verify w n u, reachable cfg verify w -
   exists c, conns w !! u_conn u = Some c /\ c_auth c = true /\ c_nick c = Some n /\ c_source c = u_source u.
 Proof. exact source_is_identity. Qed.
 
+(* AND NO COPY REACHES ANYBODY ELSE: a PRIVMSG / NOTICE line of a registered connection as a whole step of the server - after
+   any history.  The state is unchanged, no connection is closed, and EVERYTHING that is sent in the step, to any connection, is
+   the concatenation over the distinct targets of the line of what the one-target rule prescribes (C01_channel_exactly_once /
+   C01_nick_target: one copy to the owner of each audience member other than the sender; for PRIVMSG the sender's 301 / 401 / 404
+   numerics): there is no other delivery and no other line *)
+Theorem C01_message_step : forall cfg verify w i l msg targets text (notice : bool) c w' o cl, Inv w ->
+  step cfg verify w i (EvLine l) = Ok (w', o, cl) ->
+  conns w !! i = Some c -> c_auth c = true -> tokenize l = inl msg ->
+  command_of_message msg = inl (if notice then NOTICE targets text else PRIVMSG targets text) ->
+  sh w' = sh w /\ conns w' = conns w /\ cl = [] /\
+  exists nick outs, c_nick c = Some nick /\
+    Forall2 (fun t x => exists d1, privmsg_one cfg i (sh w) c nick text notice t = Ok (x, d1)) (dedup_str targets) outs /\
+    o = concat outs.
+Proof. exact message_step. Qed.
+
 Print Assumptions C01_line_shape.
+Print Assumptions C01_message_step.
 Print Assumptions C01_audience.
 Print Assumptions C01_channel_exactly_once.
 Print Assumptions C01_nick_target.
